@@ -125,3 +125,15 @@ PROPS["C06"] = {
         {"name": "C06.route", "test": "TestVerifC06Route", "shards": 16},
     ],
 }
+
+PROPS["C07"] = {
+    "claimed": False,
+    "level": "exploration",
+    "level_text": "TODO",
+    "level_note": "TODO",
+    "technique": "TODO",
+    "rule": "TODO",
+    "monitors": [
+        {"name": "C07.mesh", "test": "TestVerifC07Mesh", "shards": 16},
+    ],
+}
